@@ -407,18 +407,25 @@ def run_unit(unit, repo='/repo', canary=True, keep=False, rlimit=None, workdir=N
         if canary and res['status'] in ('ok', 'failed') and not any(f['kind'] != 'definite' for f in res['failures']):
             ctext, expected = add_canaries(g)
             cpath = os.path.join(d, 'vxc_%s.rs' % unit['name'])
-            open(cpath, 'w').write(ctext)
-            cv = run_verus(cpath, rlimit=rlimit or unit.get('rlimit'))
-            cerr = [x for x in cv['diags'] if 'assertion failed' in x.get('message', '')]
-            hit = set()
-            clines = ctext.split('\n')
-            for x in cerr:
-                for s in x.get('spans', []):
-                    if s.get('is_primary'):
-                        ln = s.get('line_start', 0)
-                        for k in range(ln - 1, max(ln - 4, -1), -1):
-                            m = re.search(r'vx_canary \( (\d+) \)', clines[k]) if k < len(clines) else None
-                            if m: hit.add(int(m.group(1))); break
+            def canary_run(text):
+                open(cpath, 'w').write(text)
+                cv_ = run_verus(cpath, rlimit=rlimit or unit.get('rlimit'))
+                cerr = [x for x in cv_['diags'] if 'assertion failed' in x.get('message', '')]
+                hit_ = set(); clines = text.split('\n')
+                for x in cerr:
+                    for s in x.get('spans', []):
+                        if s.get('is_primary'):
+                            ln = s.get('line_start', 0)
+                            for k in range(ln - 1, max(ln - 4, -1), -1):
+                                m = re.search(r'vx_canary \( (\d+) \)', clines[k]) if k < len(clines) else None
+                                if m: hit_.add(int(m.group(1))); break
+                return cv_, hit_
+            cv, hit = canary_run(ctext)
+            if any(e[1] not in hit for e in expected):
+                # the spinoff-prover copy is only a speed-up (and crashes Verus on some units): fall back to the plain copy
+                cv2, hit2 = canary_run(ctext.replace('#[verifier::spinoff_prover] ', ''))
+                hit |= hit2; cv['wall_s'] += cv2['wall_s']
+                if len(hit2) >= len(hit): cv['diags'] = cv2['diags']
             missing = [e for e in expected if e[1] not in hit]
             # canaries in provably dead code can never be refuted: the unit file names how many may be missing per function
             allow = dict(unit.get('canary_allow_missing', {}))
